@@ -1,33 +1,333 @@
+"""C20 - quote / unquote / HTML escape / UTF-8 routines match their definitions.
+
+Three voices per case: sonic (the real routine, `sonic=`), the executable reference the property names
+(encoding/json, unicode/utf8: `ref=`), and the Lean model (`model=`, plus the relations the model decides on
+the implementation's own output: `lit=` is a JSON string literal, `rt=` it decodes back to the input).
+
+Verdicts (see WORKPACKAGE_GUIDE.md):
+  * a discrepancy is reported only when the property statement fails on the case:
+      quote / mstr : the output is not a literal that decodes back            (model relation, reference agrees)
+      unq / ustr   : accepted/rejected or decoded bytes differ                (model, reference where applicable)
+      html         : differs from encoding/json.HTMLEscape or loses the prefix (reference, model agrees)
+      utf8v/utf8c  : differs from unicode/utf8                                 (reference, model agrees)
+      mstr / ustr  : the routine reached through Marshal/Unmarshal differs from the routine called directly
+  * differences the property does not speak about (which of two legal escape forms, the native error
+    kind) are ties: `tie:<name>`.
+  * model != reference: my model is wrong, no verdict (model_ref_disagree).
+"""
+import os
+
 from ..runner import Spec, Stream
+
+ENVS = {"default": {}, "noavx2": {"SONIC_MODE": "noavx2"}}
+BAD = ("PANIC", "CRASH", "HANG")
+
+
+def _st(v):
+    """'ok:<hex>' / 'err:<KIND>' / 'err' -> ('ok', hex) or ('err', kind)"""
+    if v is None:
+        return (None, None)
+    if v.startswith("ok:"):
+        return ("ok", v[3:])
+    if v.startswith("err"):
+        return ("err", v[4:] if len(v) > 3 else "")
+    return (v, None)
 
 
 class C20(Spec):
     prop = "C20"
     lean_modules = ["SonicSpec.Props.C20"]
-    rule = ("generated byte strings (all single bytes, length sweep over SIMD residues, random mixes of ASCII, escapes, "
-            "multi-byte and ill-formed UTF-8); a case is non-trivial when the input contains a byte that the routine treats specially")
-    trusted_base = ["native quote/unquote/html_escape/utf8 machine code is modelled (Model/Str.lean), tied by correspondence only"]
+    rule = ("a case is non-trivial when its input makes the routine leave the plain-copy path: a byte that is "
+            "escaped/replaced (control, quote, backslash, <>&, E2 80 A8/A9, ill-formed UTF-8), a backslash escape, "
+            "a multi-byte sequence, or a length of at least one vector block (16 bytes); inputs: all single bytes, "
+            "all (thorough) / edge + stride-sampled (quick) byte pairs, every length 0..300, special pieces at every "
+            "offset of two 32-byte blocks, all \\u quads on surrogate boundaries, malformed escapes (separate stream), "
+            "long inputs that make the destination grow, each under SONIC_MODE default and noavx2")
+    trusted_base = ["native quote/unquote/html_escape/validate_utf8 machine code (avx2 and sse builds) is modelled "
+                    "(Model/Str*.lean, transliterated from native/*.c), tied by correspondence only",
+                    "encoding/json and unicode/utf8 (Go 1.23.5) as executable reference"]
+    assumptions = ["positions reported by native unquote (*ep) are not observable through unquote.String and are not modelled",
+                   "the double-unquote mode and the no-replace mode are reached only through Unmarshal (`,string` fields, "
+                   "decoder.UseUnicodeErrors); the double-quote mode only through Marshal of `,string` fields"]
 
     def streams(self, tier, seed):
-        n = 3000 if tier == "quick" else 200000
-        return [Stream("quote", "c20.quote", n)]
+        q = tier == "quick"
+        n = 600 if q else 30000
+        return [
+            Stream("quote", "c20.quote", n * 2, envs=ENVS),
+            Stream("unquote-valid", "c20.unq", n, envs=ENVS),
+            Stream("unquote-malformed", "c20.unqbad", n, envs=ENVS),
+            Stream("html", "c20.html", n, envs=ENVS),
+            Stream("utf8", "c20.utf8", n, envs=ENVS),
+            Stream("marshal", "c20.marshal", n, envs=ENVS),
+            Stream("unmarshal", "c20.unmarshal", n, envs=ENVS),
+        ]
+
+    # ------------------------------------------------------------------ model line
+    def model_line(self, case, sonic):
+        op = case[0]
+        s = sonic.get("sonic", "")
+        if op in ("quote", "mstr") and s and s not in BAD and not s.startswith(("err", "badframe", "unsupported")):
+            return "\t".join(case + [s])
+        return "\t".join(case)
+
+    # ------------------------------------------------------------------ verdicts
+    def model_ref_disagree(self, case, sonic, model):
+        op = case[0]
+        for env, s in sonic.items():
+            m = model.get(env) or {}
+            if "model" not in m or m["model"] == "unsupported":
+                continue
+            ref = s.get("ref")
+            if ref is None:
+                continue
+            if op in ("html", "utf8c", "utf8v"):
+                if m["model"] != ref:
+                    return True
+                if m.get("loop", "1") != "1" or m.get("chunk", "1") != "1":
+                    return True   # the restartable loop of the model disagrees with its own closed form
+            elif op in ("quote", "mstr"):
+                if m.get("loop", "1") != "1":
+                    return True
+                if "rt" in m and s.get("sonic") not in BAD:
+                    # both decide "the output is a literal that decodes back"
+                    ok_model = m.get("lit") == "1" and m.get("rt") == "1"
+                    if ok_model != (ref == "1"):
+                        return True
+            elif op == "unq":
+                if ref == "na":
+                    continue
+                mk, mv = _st(m["model"])
+                rk, rv = _st(ref)
+                if mk != rk:
+                    return True
+                if mk == "ok" and self._fix(mv) != rv:
+                    return True
+            elif op == "ustr":
+                if not self._ustr_ref_applies(case):
+                    continue
+                mk, mv = _st(m["model"])
+                rk, rv = _st(ref)
+                if mk != rk:
+                    return True
+                if mk == "ok" and self._fix(mv) != rv:
+                    return True
+        return False
+
+    @staticmethod
+    def _fix(hexs):
+        """byte-wise U+FFFD replacement as unicode/utf8 decodes (Go's rule: one replacement per ill-formed byte)"""
+        b = bytes.fromhex(hexs) if hexs != "-" else b""
+        out = bytearray()
+        i = 0
+        n = len(b)
+        while i < n:
+            c = b[i]
+            l = 0
+            if c < 0x80:
+                l = 1
+            elif 0xC2 <= c <= 0xDF:
+                if i + 1 < n and 0x80 <= b[i + 1] <= 0xBF:
+                    l = 2
+            elif 0xE0 <= c <= 0xEF:
+                if i + 2 < n and 0x80 <= b[i + 2] <= 0xBF:
+                    lo, hi = 0x80, 0xBF
+                    if c == 0xE0:
+                        lo = 0xA0
+                    if c == 0xED:
+                        hi = 0x9F
+                    if lo <= b[i + 1] <= hi:
+                        l = 3
+            elif 0xF0 <= c <= 0xF4:
+                if i + 3 < n and 0x80 <= b[i + 2] <= 0xBF and 0x80 <= b[i + 3] <= 0xBF:
+                    lo, hi = 0x80, 0xBF
+                    if c == 0xF0:
+                        lo = 0x90
+                    if c == 0xF4:
+                        hi = 0x8F
+                    if lo <= b[i + 1] <= hi:
+                        l = 4
+            if l == 0:
+                out += b"\xef\xbf\xbd"
+                i += 1
+            else:
+                out += b[i:i + l]
+                i += l
+        return out.hex() if out else "-"
+
+    @staticmethod
+    def _ustr_ref_applies(case):
+        """encoding/json is comparable on this Unmarshal case: not the `,string` form (sonic's double unquote is
+        laxer than two std passes - C01's business), not the no-replace mode (std always replaces), and for the
+        default configuration only when the body has no control character (std rejects, sonic copies)"""
+        shape, cfg, body = case[1], case[2], case[3]
+        if shape == "fs" or cfg == "u":
+            return False
+        if cfg == "s":
+            return True
+        b = bytes.fromhex(body) if body != "-" else b""
+        return not any(c < 0x20 for c in b)
 
     def judge(self, case, sonic, model):
         out = []
+        op = case[0]
         for env, s in sonic.items():
-            if s.get("sonic") in ("PANIC", "CRASH", "HANG"):
+            sv = s.get("sonic")
+            if sv in BAD:
                 out.append(("crash", "%s: %s" % (env, s)))
-            else:
-                m = model.get(env) or {}
-                if "model" in m and m["model"] != "unsupported" and s.get("sonic") != m["model"]:
-                    out.append(("differs-from-model", "%s: sonic=%s model=%s" % (env, s.get("sonic"), m["model"])))
+                continue
+            if sv == "unsupported" or sv is None:
+                continue
+            m = model.get(env) or {}
+            mv = m.get("model")
+            if mv is None or mv == "unsupported":
+                continue
+            ref = s.get("ref")
+            if op == "quote":
+                if "rt" in m and not (m.get("lit") == "1" and m.get("rt") == "1"):
+                    out.append(("quote-not-roundtrip", "%s: Quote output %s is not a literal decoding to the input (lit=%s rt=%s ref=%s)"
+                                % (env, sv[:200], m.get("lit"), m.get("rt"), ref)))
+                elif sv != mv:
+                    out.append(("tie:quote-escape-form", "%s: sonic=%s model=%s" % (env, sv[:200], mv[:200])))
+            elif op == "mstr":
+                if sv.startswith(("err", "badframe")):
+                    out.append(("marshal-failed", "%s: %s" % (env, sv[:200])))
+                    continue
+                if s.get("direct") is not None and s["direct"] != sv:
+                    out.append(("marshal-differs-from-direct", "%s: Marshal gives %s, the routines called directly give %s"
+                                % (env, sv[:200], s["direct"][:200])))
+                elif "rt" in m and not (m.get("lit") == "1" and m.get("rt") == "1"):
+                    out.append(("marshal-not-roundtrip", "%s: %s lit=%s rt=%s ref=%s" % (env, sv[:200], m.get("lit"), m.get("rt"), ref)))
+                elif sv != mv:
+                    out.append(("tie:marshal-literal", "%s: sonic=%s model=%s" % (env, sv[:200], mv[:200])))
+            elif op == "unq":
+                sk, sb = _st(sv)
+                mk, mb = _st(mv)
+                if s.get("into") == "0":
+                    out.append(("unquote-intobytes-differs", "%s: IntoBytes and String disagree" % env))
+                if sk != mk or (sk == "ok" and sb != mb):
+                    out.append(("unquote-differs", "%s: sonic=%s model=%s ref=%s" % (env, sv[:200], mv[:200], (ref or "")[:200])))
+                elif sk == "err" and sb != mb:
+                    out.append(("tie:unquote-error-kind", "%s: sonic=%s model=%s" % (env, sv, mv)))
+            elif op == "ustr":
+                sk, sb = _st(sv)
+                mk, mb = _st(mv)
+                d = s.get("direct")
+                if d not in (None, "na"):
+                    dk, db = _st(d)
+                    if dk != sk or (sk == "ok" and db != sb):
+                        out.append(("unmarshal-differs-from-direct", "%s: Unmarshal gives %s, unquote.String gives %s" % (env, sv[:200], d[:200])))
+                        continue
+                same_as_model = (sk == mk and (sk != "ok" or sb == mb))
+                if case[1] != "fs":
+                    if not same_as_model:
+                        out.append(("unmarshal-string-differs", "%s: sonic=%s model=%s ref=%s" % (env, sv[:200], mv[:200], (ref or "")[:200])))
+                    continue
+                # `,string` form: the specification is unquoting twice (what encoding/json does); the one-pass
+                # routine (model=) is sonic's implementation of it
+                tk, tb = _st(m.get("two"))
+                if sk == tk and (sk != "ok" or sb == tb):
+                    continue                      # behaves as the definition says
+                rk, rb = _st(ref)
+                std_is_two = case[2] != "u" and rk == tk and (tk != "ok" or self._fix(tb) == rb)
+                if std_is_two:
+                    out.append(("double-unquote-differs-from-encoding-json",
+                                "%s: sonic=%s, unquoting twice and encoding/json give %s (one-pass model: %s)" % (env, sv[:200], (ref or "")[:200], mv[:200])))
+                elif not same_as_model:
+                    out.append(("unmarshal-string-differs", "%s: sonic=%s model=%s two-pass=%s ref=%s"
+                                % (env, sv[:200], mv[:200], (m.get("two") or "")[:200], (ref or "")[:200])))
+            elif op in ("html", "utf8c", "utf8v"):
+                if sv != mv:
+                    out.append((op + "-differs", "%s: sonic=%s model=ref=%s" % (env, sv[:200], mv[:200])))
+        # the SIMD level must not change anything (also C13; here only as a side condition of "at every alignment")
+        vals = {env: s.get("sonic") for env, s in sonic.items()}
+        if len(set(vals.values())) > 1 and not out:
+            out.append(("differs-between-simd-levels", str({k: (v or "")[:120] for k, v in vals.items()})))
+        dbg = os.environ.get("C20_DEBUG")
+        if dbg and out:
+            with open(dbg, "a") as f:
+                for k, d in out:
+                    f.write("%s\t%s\t%s\n" % (k, "\t".join(case)[:300], d[:300]))
         return out
 
+    # ------------------------------------------------------------------ coverage rule
     def nontrivial(self, case, sonic, model):
-        if case[0] == "quote" and case[1] != "-":
-            b = bytes.fromhex(case[1])
-            return any(c < 32 or c in (34, 92) or c >= 128 for c in b)
-        return False
+        op = case[0]
+        h = case[-1]
+        if h == "-":
+            return False
+        b = bytes.fromhex(h)
+        if len(b) >= 16:
+            return True
+        if op in ("unq", "ustr"):
+            return any(c == 92 or c >= 128 for c in b)
+        if op == "html":
+            return any(c in (60, 62, 38, 0xE2) for c in b)
+        if op in ("utf8v", "utf8c"):
+            return any(c >= 128 for c in b)
+        return any(c < 32 or c in (34, 92, 60, 62, 38) or c >= 128 for c in b)
+
+    # ------------------------------------------------------------------ known findings
+    def matchers(self):
+        def html_long_prefix(d, params):
+            """encoder.HTMLEscape(dst, src) panics in rt.GrowSlice when len(dst) > len(src)*3/2 + 64 and the spare
+            capacity is below len(src)+64 (internal/encoder/alg/spec.go:131-133 computes the new capacity from
+            len(src) alone).  Narrow: only this op, only a panic with this message, only in that region."""
+            case = d["case"]
+            if d["kind"] != "crash" or case[0] != "html":
+                return False
+            spare = int(case[1])
+            dl = 0 if case[2] == "-" else len(case[2]) // 2
+            sl = 0 if case[3] == "-" else len(case[3]) // 2
+            if not (spare < sl + 64 and dl > sl * 3 // 2 + 64):
+                return False
+            for env, s in d["sonic"].items():
+                if s.get("sonic") == "PANIC" and "newCap is smaller than old length" not in s.get("panic", ""):
+                    return False
+            return True
+        def dbl_ignores_unicode_errors(d, params):
+            """`,string` field + decoder.UseUnicodeErrors: a lone surrogate escape is replaced by U+FFFD instead of
+            being rejected (escape_string_twice, assembler_regabi_amd64.go:820-823: XORL after BTQ clears the carry,
+            so F_UNICODE_REPLACE is always set).  Narrow: only that shape and option, only when sonic returns
+            exactly what the routine gives with replacement switched on, and the model (no replacement) rejects."""
+            case = d["case"]
+            if d["kind"] != "unmarshal-string-differs" or case[0] != "ustr" or case[1] != "fs" or case[2] != "u":
+                return False
+            for env, s in d["sonic"].items():
+                m = (d["model"].get(env) or {})
+                if not (m.get("model") == "err" and m.get("alt", "").startswith("ok:") and s.get("sonic") == m.get("alt")):
+                    return False
+            return True
+
+        def dbl_one_pass(d, params):
+            """`,string` field: sonic unquotes the doubly quoted body in one pass (native unquote with
+            F_DOUBLE_UNQUOTE); on bodies that are not what Marshal produces (a backslash or quote written as
+            \\u005c / \\u0022, a lone high surrogate followed by a malformed \\u escape) the result differs from
+            unquoting twice, which is what encoding/json does.  Narrow: only that shape, only when sonic returns
+            exactly what the one-pass model returns."""
+            case = d["case"]
+            if d["kind"] != "double-unquote-differs-from-encoding-json" or case[0] != "ustr" or case[1] != "fs":
+                return False
+            for env, s in d["sonic"].items():
+                m = (d["model"].get(env) or {})
+                mv = m.get("model", "")
+                sv = s.get("sonic", "")
+                if mv.startswith("ok:"):
+                    if sv != mv:
+                        return False
+                elif not (mv == "err" and sv.startswith("err")):
+                    return False
+            return True
+        return {"html_escape_long_prefix_growslice_panic": html_long_prefix,
+                "double_unquote_ignores_unicode_errors": dbl_ignores_unicode_errors,
+                "double_unquote_one_pass": dbl_one_pass}
+
+    def shrink_fields(self, case):
+        # the hex payload is the last field; for html/utf8c also the destination prefix
+        idx = [len(case) - 1]
+        if case[0] in ("html", "utf8c") and len(case) >= 4:
+            idx.append(len(case) - 2)
+        return [i for i in idx if case[i] != "-" and len(case[i]) >= 4]
 
 
 SPEC = C20()
